@@ -230,6 +230,10 @@ Section Cluster.
         (* every open stream of the prefix receives the response (the events under the prefix) *)
         let s1 := mkS (fold_left bev_step items (etcd s)) (length items + rev s) (cvals s) (subs s) (nwatch s) in
         iter (nwatch s) (apply_batch (filter (fun b => under (bkey b)) items)) s1
+    | GetFail =>
+        (* load :145-158: the attempt had its own context (context.WithTimeout per iteration, cancelled right
+           after), the error is logged, the loop sleeps coolDownInterval and tries again: nothing is kept *)
+        s
     end.
 
   Definition run_from (s : state) (h : list ev) : state := fold_left step h s.
